@@ -146,7 +146,9 @@ def write(sc, d, warm=None, out_name=None, shift=0):
         lab.make_grid_forcing(names[k], times, imax=sc["imax"], jmax=sc["jmax"], N=sc["N"], h=np.array(sc["h"]),
                               mask=np.array(sc["mask"]), dx=np.array(sc["dx"]), hc=0.0,
                               u=lambda t, kk, j, i, idx=idx: U[idx[t]][kk, j, i],
-                              v=lambda t, kk, j, i, idx=idx: V[idx[t]][kk, j, i], scal=scal)
+                              v=lambda t, kk, j, i, idx=idx: V[idx[t]][kk, j, i], scal=scal,
+                              # every file with its own time reference (shortly before its first frame), if the scenario says so
+                              time_ref_s=(min(times) - 17 - 3600 * k) if sc.get("own_time_reference") else None)
     rows = []
     for x in sc["rows"]:
         row = dict(release_time=sim2time(sc, x["step"]) + shift, mult=x["mult"], X=x["X"], Y=x["Y"], Z=x["Z"])
